@@ -568,11 +568,19 @@ func (cp *ClientPromise) Fulfill(c *Client) {
 	if cp.h.calls == 0 {
 		close(cp.h.done)
 	}
-	rh = resolveHook(cp.h) // swaps mutex on cp.h for mutex on rh
+	// Transfer the references while still holding cp.h.mu: everybody who
+	// holds one of them has to pass through cp.h.mu to follow the
+	// resolution, so nobody can drop a reference on the target before the
+	// target has been credited with it.
 	if rh != nil {
-		rh.refs += refs
-		rh.mu.Unlock()
+		rh.mu.Lock()
+		rh = resolveHook(rh) // swaps mutex on rh for mutex on its resolution
+		if rh != nil {
+			rh.refs += refs
+			rh.mu.Unlock()
+		}
 	}
+	cp.h.mu.Unlock()
 	verifhook.Yield(106)
 	<-cp.h.done
 	cp.h.Shutdown()
